@@ -21,6 +21,13 @@ PROPS = {
                 thorough={"checks": 12000, "shards": 16, "timeout": 2400},
                 technique="property-based testing (rapid): generated histories with a context end at every position, outcome compared with a reference model; bounded-return with a confirmed-hang rule",
                 level_text="reference-model comparison of the outcome of generated histories (quorum / exhaustion / context end, including zero and one targeted node); hangs are confirmed by two goroutine dumps 10 s apart"),
+    "C14": {
+        "pkg": "./props/c14", "overlay": "access", "puppet": True, "level": "exploration", "engine": "pure",
+        "quick": {"checks": 20000, "shards": 2, "timeout": 600},
+        "thorough": {"checks": 300000, "shards": 16, "timeout": 2400},
+        "technique": "model-based property testing (rapid): generated sequences of configuration-building operations compared with a set/pool reference model after every step",
+        "level_text": "stateful search over small scopes (9 addresses incl. two FNV collision pairs, ids 1-6): every result, every earlier configuration and the manager's pool are compared with the reference model after each operation, through the generated and the raw API; sampling, not proof",
+    },
     "C19": {
         "pkg": "./props/c19", "overlay": "access", "level": "exploration", "engine": "pure",
         "technique": "property-based testing (rapid): generated node slices x key sequences against a lexicographic reference model plus strict-weak-order laws",
